@@ -54,6 +54,7 @@ Counter f_flip_inflight("probe.statement_in_flight_during_threshold_flip");
 Counter f_flip_ambiguous("probe.statement_verdict_ambiguous_under_flip");
 Counter f_callable_throw("fault.user.throw.callable");
 Counter f_chunk("fault.stream.chunk");
+Counter f_devfail("fault.stream.fail");
 Counter f_unbuffered("fault.stream.unbuffered");
 Counter f_tinybuf("fault.stream.tinybuf");
 Counter f_bigbuf("fault.stream.buffered");
@@ -977,6 +978,8 @@ public:
         p.knobs.emplace_back("errbuf", BUF[rng.below(9)]);
         static const int CH[] = { 1, 2, 5, 16, 64, 1000 };
         p.knobs.emplace_back("chunk", CH[rng.below(6)]);
+        // an I/O error on the device part-way through the run (liveness only is judged then)
+        p.knobs.emplace_back("dev_fail_at", rng.chance(1, 12) ? rng.range(0, 400) : -1);
         p.knobs.emplace_back("tie", catalogue()[static_cast<size_t>(logger)].sink == SK_SEQ_MT ? 0 : static_cast<int>(rng.below(2)));
         // initial thresholds
         bool flips = rng.chance(2, 3);
@@ -1164,6 +1167,12 @@ public:
         g_out.configure(static_cast<size_t>(outbuf), static_cast<unsigned>(plan.knob("chunk", 8)), sseed ^ 0x0117);
         g_err.configure(static_cast<size_t>(errbuf), static_cast<unsigned>(plan.knob("chunk", 8)), sseed ^ 0xE44);
         bool mt = le.sink >= SK_STDOUT_MT;
+        if (plan.knob("dev_fail_at", -1) >= 0)
+        {
+            g_out.fail_at = g_err.fail_at = static_cast<size_t>(plan.knob("dev_fail_at", 0));
+            if (mt)
+                f_devfail++;
+        }
         if (mt)
         {
             (outbuf == 0 ? f_unbuffered : outbuf <= 16 ? f_tinybuf : f_bigbuf)++;
@@ -1230,6 +1239,7 @@ public:
         sch.alloc_yield = plan.knob("alloc_yield", 0) != 0;
         sch.timeout_num = static_cast<unsigned>(plan.knob("lock_timeout8", 0) % 8);
         sch.timeout_state = sseed ^ 0x71AE;
+        sch.clock_state = sseed ^ 0xC10C;
 
         auto th_snapshot = [&] { return std::array<int, 3>{ g.th[0], g.th[1], g.th[2] }; };
         auto begin_stmt = [&](int si) {
@@ -1427,7 +1437,7 @@ public:
         out.hash = h.h;
         out.choices = sch.taken;
         out.steps = sch.steps;
-        out.sim_time_ns = static_cast<uint64_t>(std::max<int64_t>(0, sch.steps * 4));
+        out.sim_time_ns = sch.elapsed_ns;
         out.nontrivial = g.stmts.size() >= 2 && (sch.switches > 0 || nthreads == 1);
         out.violated = g.stop;
         out.v = g.v;
@@ -1647,6 +1657,9 @@ public:
             bool used = (d.b == &g_out) ? (le.sink == SK_STDOUT_MT || le.sink == SK_SEQ_MT) : (le.sink == SK_STDERR_MT || le.sink == SK_SEQ_MT);
             if (d.b->raced)
                 return flag("C09/stream-race", sk + " dev=" + d.nm, -1, d.b->race_detail);
+            if (d.b->failed || d.b->fail_at != static_cast<size_t>(-1))
+                continue; // after an I/O error the stream discards records by specification: only
+                          // liveness, mutual exclusion and lock release (checked above) are judged
             std::string content = d.b->contents_with_remainder();
             if (!used)
             {
